@@ -390,6 +390,11 @@ func (viso *VirtualISO) makeDirEntries(item *dirItem, joliet bool) error {
 			return fmt.Errorf("name of directory %s is too long for directory entry", dirItem.path)
 		}
 
+		// child directories are linked with parent by identifier, so it must be unique
+		if existing := item.findDirEntry(&dirItem, joliet); existing != nil && existing.FileFlags&dirFlagDir > 0 {
+			return fmt.Errorf("name of directory %s is not unique after conversion to identifier", dirItem.path)
+		}
+
 		if joliet {
 			item.dirEntryJoliet = append(item.dirEntryJoliet, entry)
 		} else {
